@@ -156,12 +156,15 @@ def run(ctx: Any) -> None:  # noqa: C901, PLR0912, PLR0915 - one long driver, ke
         sys.path.append("/verif/harness/stubs")  # tenacity stand-in (external pointer resolution imports it)
 
     translate(ctx)
+    # source-independent part first (theorems for every covering table, record of the old behaviour) ...
     ctx.prove(
-        ["prop/P_C05.vo", "tie/T_ReadReq.vo", "refuted/R_C05.vo"],
-        {
-            "P_C05": ["C05_always_answers", "C05_keeps_serving", "C05_only_bad_ipc_ends", "C05_never_silent"],
-            "T_ReadReq": ["gen_covers", "C05_source_always_answers", "C05_source_keeps_serving", "C05_source_only_bad_ipc_ends", "wire_core_rows_agree"],
-        },
+        ["prop/P_C05.vo", "refuted/R_C05.vo"],
+        {"P_C05": ["C05_always_answers", "C05_keeps_serving", "C05_only_bad_ipc_ends", "C05_never_silent"]},
+    )
+    # ... then the tie to the tree under test: the regenerated table covers, theorems restated over it
+    ctx.prove(
+        ["tie/T_ReadReq.vo"],
+        {"T_ReadReq": ["keys_tie", "gen_covers", "C05_source_always_answers", "C05_source_keeps_serving", "C05_source_only_bad_ipc_ends", "wire_core_rows_agree"]},
     )
 
     from harness.rawrpc import error_of, read_streams, request_bytes, tick_stream_bytes
